@@ -27,18 +27,25 @@ def parseCfg (cfg peers paths blocks : String) : Option Cfg :=
            lost := ← (toks.filter (fun t => t.contains '!')).mapM parseLost }
   | _ => none
 
+/-- round 8c: a pin token whose cid is `-` (cid.Undef) is read with the cid `noCid` (outside every universe), in
+    requests, results, pinsets and logs alike — a request without a cid is a case to judge, not an unreadable line -/
+def fixUndefTok (t : String) : String := if t.startsWith "-/" then toString noCid ++ (t.drop 1).toString else t
+def parsePinU (t : String) : Option Pin := parsePin (fixUndefTok t)
+def parsePinsetU (s : String) : Option PinMap :=
+  if s == "-" then some [] else ((s.splitOn "|").map fixUndefTok).mapM parsePin
+
 def parseOp : List String → Option Op
   | ["pin", c, o] => do pure (.pin (← c.toNat?) (← parseOpts o))
   | ["pinpath", p, o] => do pure (.pinPath (← p.toNat?) (← parseOpts o))
   | ["update", s, d, o] => do pure (.update (← s.toNat?) (← d.toNat?) (← parseOpts o))
   | ["unpin", c] => do pure (.unpin (← c.toNat?))
   | ["unpinpath", p] => do pure (.unpinPath (← p.toNat?))
-  | ["rpcpin", p] => do pure (.rpcPin (← parsePin p))
+  | ["rpcpin", p] => do pure (.rpcPin (← parsePinU p))
   | _ => none
 
 /-- calls that enter through the real ClusterRPCAPI (rpc_api.go) -/
 def parseRpc : List String → Option RpcCall
-  | ["rpc.pin", p] => do pure (.pin (← parsePin p))
+  | ["rpc.pin", p] => do pure (.pin (← parsePinU p))
   | ["rpc.unpin", p] => do pure (.unpin (← parsePin p))
   | ["rpc.pinpath", p, o] => do pure (.pinPath (← p.toNat?) (← parseOpts o))
   | ["rpc.unpinpath", p, o] => do pure (.unpinPath (← p.toNat?) (← parseOpts o))
@@ -46,7 +53,8 @@ def parseRpc : List String → Option RpcCall
   | _ => none
 
 def parseLogEntry (s : String) : Option LogEntry :=
-  if s.startsWith "P" then (parsePin (s.drop 1).toString).map .logPin
+  if s.startsWith "P" then (parsePinU (s.drop 1).toString).map .logPin
+  else if s == "U-" then some (.logUnpin noCid)
   else if s.startsWith "U" then (s.drop 1).toNat?.map .logUnpin
   else none
 
@@ -88,8 +96,8 @@ def parseCase (ws : List String) : Option Case := do
     let op ← match rpc with
       | some call => some ((call.intended).getD (.unpin 0))
       | none => parseOp (splitFault opw).1
-    pure { cfg := ← parseCfg cfg peers paths blocks, pre := ← parsePinset pm, op := op, rpc := rpc,
-           fault := (splitFault opw).2, res := ← parseRes res, post := ← parsePinset pm', log := ← parseLog log }
+    pure { cfg := ← parseCfg cfg peers paths blocks, pre := ← parsePinsetU pm, op := op, rpc := rpc,
+           fault := (splitFault opw).2, res := ← parseRes res, post := ← parsePinsetU pm', log := ← parseLog log }
   | _, _ => none
 
 def opCid (cfg : Cfg) : Op → Option Nat
@@ -205,6 +213,10 @@ def answer (ws : List String) : String :=
       | .unpinPath pth => (match lookup k.cfg.paths pth with
           | some c => (match k.pre.get c with | some p => if p.type == .metaT then "-meta" else if p.type == .dataT then "-data" else "-other" | none => "-absent")
           | none => "-unresolved")
+      | .rpcPin p => if p.cid == noCid then "-nocid" else
+          (if (k.pre.get p.cid).isSome then "-existing" else "-new") ++
+          (match p.type with | .dataT => "-data" | .metaT => "-meta" | .clusterDagT => "-dag" | .shardT => "-shard" | .badT => "-bad") ++
+          (if p.allocs.isEmpty then "" else "-preset")
       | _ => ""
     let arm := (if k.rpc.isSome then "rpc." else "") ++ opName k.op ++ sub ++ reached ++ (if k.cfg.follower then "-follower" else "") ++ (if out.res.isSome then "-ok" else "-err")
     let agree :=
@@ -219,7 +231,7 @@ def answer (ws : List String) : String :=
       (match out.alloc, out.res with
        | some ai, some _ => C03.allowed ai (.ok chosen)
        | _, _ => true)
-    let failed := (clauses k.cfg k.pre k.op k.res k.post).filter (fun c => !c.2)
+    let failed := (clauses k.cfg k.pre k.op k.res k.post ++ undefClauses k.cfg k.pre k.op k.res k.post).filter (fun c => !c.2)
     if !failed.isEmpty then
       "propfail " ++ ",".intercalate (failed.map (·.1)) ++ " arm=" ++ arm
     else if !agree then
